@@ -11,9 +11,13 @@ package main
 
 import (
 	"context"
+	"errors"
 	"fmt"
+	"io"
 	"reflect"
 	"time"
+
+	"github.com/pojntfx/panrpc/go/pkg/utils"
 )
 
 type zooEmptyErr struct{}
@@ -56,11 +60,29 @@ func errOfKind(kind int) error {
 		return zooIntErr(42)
 	case 9:
 		return &ZooErr{"pointer error"}
+	// errors the library itself gives a meaning to elsewhere — as APPLICATION errors of a handler or a closure they
+	// are messages like any other: sentinels of package context, io and of panrpc, bare and wrapped
+	case 10:
+		return context.Canceled
+	case 11:
+		return fmt.Errorf("upstream fetch failed: %w", context.Canceled)
+	case 12:
+		return fmt.Errorf("upstream fetch failed: %w", context.DeadlineExceeded)
+	case 13:
+		return errors.Join(errors.New("first"), context.Canceled)
+	case 14:
+		return io.EOF
+	case 15:
+		return fmt.Errorf("store: %w", io.ErrUnexpectedEOF)
+	case 16:
+		return utils.ErrClosed
+	case 17:
+		return fmt.Errorf("pool: %w", utils.ErrClosed)
 	}
 	return nil
 }
 
-const errKinds = 10
+const errKinds = 18
 
 // KindErr returns (kind, errOfKind(kind)); KindErrOnly only the error.
 func (s *Svc) KindErr(ctx context.Context, kind int) (int, error) {
